@@ -597,7 +597,8 @@ class Edit(Text):
         """
         self._shift_view_to_cursor = bool(focus)
 
-        canv: TextCanvas | CompositeCanvas = super().render(size, focus)
+        # not super().render(): Text caches its canvas ignoring focus, but the view shift depends on focus
+        canv: TextCanvas | CompositeCanvas = Text.render.original_fn(self, size, focus)
         if focus:
             canv = CompositeCanvas(canv)
             canv.cursor = self.get_cursor_coords(size)
